@@ -29,10 +29,6 @@ impl GossipState {
     { unimplemented!() }
 }
 
-impl From<PostcardError> for AnyhowError {
-    #[verifier::external_body]
-    fn from(e: PostcardError) -> AnyhowError { unimplemented!() }
-}
 impl From<KeyParsingError> for AnyhowError {
     #[verifier::external_body]
     fn from(e: KeyParsingError) -> AnyhowError { unimplemented!() }
